@@ -189,8 +189,8 @@ def run_tree(po_ns, tree, pre_ids, chooser, max_calls):
     with jh.patched(po_ns, get_class=get_class):
         try:
             jh.call_sub(run, po_ns["process_object"], tree, data, ())
-        except Exception:
-            pass
+        except Exception as e:
+            jh.reraise_harness(e)
     return run
 
 
@@ -278,8 +278,8 @@ def _load_real(specs):
             continue
         try:
             importlib.import_module(m)
-        except Exception:
-            pass
+        except Exception as e:
+            jh.reraise_harness(e)
     dic = {}
     lvl = logging.root.manager.disable
     logging.disable(logging.CRITICAL)
@@ -288,6 +288,7 @@ def _load_real(specs):
             u.process_objects(el, dic)
         return dic, None
     except Exception as e:
+        jh.reraise_harness(e)
         return dic, e
     finally:
         logging.disable(lvl)
@@ -429,17 +430,17 @@ def run_sequence(po_ns, trees, pre_ids, chooser, max_calls):
         try:
             for j, (t, d) in enumerate(zip(trees, datas)):
                 jh.call_sub(run, po_ns["process_object"], t, d, (j,))
-        except Exception:
-            pass
+        except Exception as e:
+            jh.reraise_harness(e)
     return run
 
 
 def sequence_items(tier):
     """[t1, t2] with joint id-equality patterns: t1 of depth <= 2, t2 a reference or a small definition"""
-    first = [s for s in jh.tree_shapes(2, 2) if jh.shape_slots(s) <= (5 if tier == "thorough" else 4)]
+    first = [s for s in jh.tree_shapes(2, 2) if jh.shape_slots(s) <= 4]
     second = ["r", ("d", ()), ("d", ("r",)), ("d", (("d", ()),))]
     if tier == "thorough":
-        second += [("d", ("r", "r")), ("d", (("d", ()), "r"))]
+        second += [("d", ("r", "r"))]
     for s1 in first:
         for s2 in second:
             n1, n2 = jh.shape_slots(s1), jh.shape_slots(s2)
@@ -615,8 +616,8 @@ def run_generic(po, ns, ch, JSONParseError, max_steps=3):
     with jh.patched(ns, get_class=get_class):
         try:
             jh.call_sub(run, po, node, data, ())
-        except Exception:
-            pass
+        except Exception as e:
+            jh.reraise_harness(e)
     ev = run.calls[0]
     if gc != "class":
         ev["cause"] = "unknown type"
@@ -757,8 +758,8 @@ def ob_generic_reference():
             with jh.patched(u.__dict__, get_class=_no_get_class):
                 try:
                     jh.call_sub(run, u.process_object, ("r", R), R, ())
-                except Exception:
-                    pass
+                except Exception as e:
+                    jh.reraise_harness(e)
             bad = check_call(run, run.calls[0], u.JSONParseError) + check_log(run)
             if bad:
                 spec = ["R"]
@@ -789,8 +790,8 @@ def ob_other_types():
             with jh.patched(u.__dict__, get_class=_no_get_class):
                 try:
                     jh.call_sub(run, u.process_object, ("other", repr(v)), v, ())
-                except Exception:
-                    pass
+                except Exception as e:
+                    jh.reraise_harness(e)
             bad = check_call(run, run.calls[0], u.JSONParseError) + check_log(run)
             if any(e[0] == "fut" and e[1].startswith("dic.") for e in run.log):
                 bad.append(("otherwise", "registry accessed"))
@@ -820,8 +821,8 @@ def ob_missing_keys():
                 with jh.patched(u.__dict__, get_class=get_class):
                     try:
                         jh.call_sub(run, u.process_object, ("d", "I", ()), data, ())
-                    except Exception:
-                        pass
+                    except Exception as e:
+                        jh.reraise_harness(e)
                 ev = run.calls[0]
                 msgs = []
                 if "exc" not in ev or not isinstance(ev["exc"], u.JSONParseError):
@@ -856,8 +857,8 @@ def ob_range_reference():
                     with jh.patched(u.__dict__, get_class=_no_get_class):
                         try:
                             jh.call_sub(run, u.process_object, ("range", data), data, ())
-                        except Exception:
-                            pass
+                        except Exception as e:
+                            jh.reraise_harness(e)
                     ev = run.calls[0]
                     wanted = ["s%d" % i for i in range(a, b)]
                     msgs = []
@@ -923,6 +924,7 @@ def ob_process_objects():
                                     out = u.process_objects(holder, run.dic, force_list, key) if key is not None \
                                         else u.process_objects(holder, run.dic, force_list)
                             except Exception as e:
+                                jh.reraise_harness(e)
                                 exc = e
                         msgs = []
                         if any(e[1].startswith("dic.") for e in run.log):
@@ -993,6 +995,7 @@ def ob_with_key():
                             out = u.process_object_with_key("k", data, run.dic, default) if default is not None \
                                 else u.process_object_with_key("k", data, run.dic)
                         except Exception as e:
+                            jh.reraise_harness(e)
                             exc = e
                     msgs = []
                     if any(e[1].startswith("dic.") for e in run.log):
@@ -1052,6 +1055,7 @@ def ob_from_json_safe():
                     with run.log.as_("fut"):
                         out = K.from_json_safe(data, run.dic)
                 except Exception as e:
+                    jh.reraise_harness(e)
                     exc = e
                 msgs = []
                 if any(e[0] == "fut" and e[1].startswith("dic.") for e in run.log):
@@ -1089,8 +1093,8 @@ def ob_get_class():
             data = {"id": "I", "type": t}
             try:
                 jh.call_sub(run, u.process_object, ("d", "I", ()), data, ())
-            except Exception:
-                pass
+            except Exception as e:
+                jh.reraise_harness(e)
             ev = run.calls[0]
             if not isinstance(ev.get("exc"), u.JSONParseError):
                 msgs.append("unknown type %r: %r instead of JSONParseError" % (t, ev.get("exc", ev.get("ret"))))
@@ -1359,6 +1363,7 @@ def ob_expand_plates(tier):
                         u.expand_plates(x)
                         got, gexc = x, None
                     except Exception as e:
+                        jh.reraise_harness(e)
                         got, gexc = None, e
                     if type(eexc) is not type(gexc) or (eexc is None and not _same_json(got, exp)):
                         raise Refuted("expand_plates(%s) = %s / %r, expected %s / %r" % (json.dumps(orig), json.dumps(got), gexc, json.dumps(exp), eexc),
